@@ -318,6 +318,32 @@ fn program_case_in(ctx: &Ctx, dir: &std::path::Path, prog: &gen::text::Commented
         .sig("C05:definition-hidden")
         .rendered(src.clone()));
     }
+    // 2b. the same relation on a program the parser rejects: the token stream is cut at a boundary (an
+    // unexpected end of file, mostly) and ends in comments; blanking them moves no diagnostic.
+    {
+        // (the tape is mostly used up by now: the cut is derived from the program text)
+        let h = fnv(src.as_bytes());
+        let cut = prog.boundary((h % prog.boundaries() as u64) as usize);
+        let tail = [" // trailing note", "\n/* closing remark */\n", " /* a */ // b\n", "\n\n// one\n// two", " /**/"][((h >> 32) % 5) as usize];
+        let truncated = format!("{}{}", &plain[..cut], tail);
+        if let Some(blank) = blank_comments(&truncated) {
+            let (f_t, out_t, _) = findings(ctx, dir, "a.circom", &truncated)?;
+            let (f_b, out_b, _) = findings(ctx, dir, "a.circom", &blank)?;
+            if !crashed(&out_t) && !crashed(&out_b) {
+                rec.class("truncated_programs_ending_in_comments");
+                if f_t.iter().any(|x| x.0 == "error") {
+                    rec.class("truncated_programs_rejected_by_the_parser");
+                }
+                if f_t != f_b {
+                    return Err(Bad::new(format!(
+                        "findings of a truncated program change when its trailing comments are replaced by blanks of the same length:\n with comments: {f_t:?}\n blanked: {f_b:?}"
+                    ))
+                    .sig("C05:blanking-changes-findings")
+                    .rendered(truncated));
+                }
+            }
+        }
+    }
     // 3. open an unterminated block comment at a token boundary: must be an error.
     let cut = prog.boundary(t.below(prog.boundaries()));
     let opener = ["/* never closed", "/*", "/** doc *", "/* a * / b", "/*/"][t.below(5)];
